@@ -185,7 +185,7 @@ func genDec(r *Rand, p *Profile, sync bool) h.DecSpec {
 	}
 	if r.Bool(p.PWrap) {
 		for n := r.Range(1, 3); n > 0; n-- {
-			d.Wrap = append(d.Wrap, r.Intn(6))
+			d.Wrap = append(d.Wrap, r.Intn(7))
 		}
 	}
 	d.Listener = r.Bool(p.PListener)
